@@ -91,6 +91,10 @@ def cases(rng, tier):
                 yield fcase(f[:pos] + ch + f[pos:], "insert-char")
                 if pos < len(f):
                     yield fcase(f[:pos] + ch + f[pos + 1:], "replace-char")
+    for h1 in (">", "> ", ">\t", ">  \t "):
+        for body in ("MDVFMKGLSK\n>first\nAKEGVVAAAE\n", "MDVFMKGLSK\n>\nAKEGV\n", "\nACD\n\n> x\n", "AC\n>b\n"):
+            yield fcase(h1 + "\n" + body, "nameless-first-header")
+        yield fcase(h1 + "\nMDVFMKGLSK\nAKEGV\n", "nameless-first-header", analyses=True)
     # ONE parser object reused for several files (valid with header / without, rejected ones in between): the result
     # for a file must not depend on the files parsed before it
     pool = [">h1\nACDEF\nGHIKL\n", "KEKE\n", ">h2 x\nMNPQR*\n", ">a\n>b\nAC\n", "AC1DE\n", "ACxDE\n", ">h3\n 10 STVWY\n", "A*C\n", ""]
